@@ -144,6 +144,9 @@ func c12Monitor(o *c12Obs) (fails []Failure, timing map[string]bool) {
 		if cs.Half {
 			expectCtx = true
 		}
+		if cs.Abort {
+			continue // the client reset this connection itself: it observes nothing of the server any more
+		}
 		if cs.ReadDelayMs < 0 {
 			// a client that never reads: its bulk response blocks in Write, the connection never drains and the
 			// client observes nothing
@@ -310,7 +313,7 @@ func c12Coq(c *c12Case) string {
 
 func c12Class(c *c12Case) string {
 	s := c.Scn
-	pre, post, half, never, long, slow := 0, 0, 0, 0, 0, 0
+	pre, post, half, never, long, slow, abort := 0, 0, 0, 0, 0, 0, 0
 	for _, cs := range s.Conns {
 		pre += len(cs.Pre)
 		post += len(cs.Post)
@@ -328,6 +331,9 @@ func c12Class(c *c12Case) string {
 		if cs.ReadDelayMs != 0 {
 			slow++
 		}
+		if cs.Abort {
+			abort++
+		}
 	}
 	b := func(n int) string {
 		switch {
@@ -338,7 +344,7 @@ func c12Class(c *c12Case) string {
 		}
 		return "3+"
 	}
-	return fmt.Sprintf("pool=%d conns=%s pre=%s post=%s half=%d never=%d long=%d slow=%d phase=%s sig=%s cap=%v", s.Pool, b(len(s.Conns)), b(pre), b(post), half, never, long, slow, s.Phase, s.Signal, s.QueueCap > 0)
+	return fmt.Sprintf("pool=%d conns=%s pre=%s post=%s half=%d never=%d long=%d slow=%d abort=%d phase=%s sig=%s cap=%v", s.Pool, b(len(s.Conns)), b(pre), b(post), half, never, long, slow, abort, s.Phase, s.Signal, s.QueueCap > 0)
 }
 
 func c12Gen(tier string, rng *rand.Rand) []c12Case {
@@ -357,6 +363,30 @@ func c12Gen(tier string, rng *rand.Rand) []c12Case {
 		out = append(out, c12Case{Scn: s})
 	}
 	sigs := []string{"TERM", "INT", "USR2"}
+	// many connected clients, some of which have reset their connection (RST) with a call still running or already
+	// finished: the server's close message to those fails; every healthy client must still get it before EOF
+	crowd := func(pool, healthy, aborted int, sig string) c12Scn {
+		var cs []c12ConnScn
+		for i := 0; i < healthy; i++ {
+			switch rng.Intn(3) {
+			case 0:
+				cs = append(cs, c12ConnScn{})
+			case 1:
+				cs = append(cs, c12ConnScn{Pre: []int{[]int{0, 50}[rng.Intn(2)]}})
+			default:
+				cs = append(cs, c12ConnScn{Pre: []int{50, 300}, Pipelined: rng.Intn(2) == 0})
+			}
+		}
+		for i := 0; i < aborted; i++ {
+			d := 1000 + 100*rng.Intn(8) // still running at the first poller tick
+			if i%3 == 2 {
+				d = 0 // already finished
+			}
+			cs = append(cs, c12ConnScn{Pre: []int{d}, Abort: true})
+		}
+		rng.Shuffle(len(cs), func(a, b int) { cs[a], cs[b] = cs[b], cs[a] })
+		return c12Scn{Pool: pool, GraceMs: 4500, Signal: sig, Conns: cs}
+	}
 	for pi, pool := range []int{0, 1, 4} {
 		// four slow requests read on one connection, then the signal (the schedule of the design's finding)
 		add(c12Scn{Pool: pool, Late: true, Conns: []c12ConnScn{{Pre: []int{300, 300, 300, 300}, Pipelined: true}}})
@@ -406,6 +436,9 @@ func c12Gen(tier string, rng *rand.Rand) []c12Case {
 			add(c12Scn{Pool: pool, Conns: []c12ConnScn{{Pre: []int{50, 50, 50, 50, 50}, Pipelined: true}, {Pre: []int{50, 50, 50}}, {Pre: []int{300}, Post: []int{0, 0, 0}, PostDelayMs: 50}}})
 		}
 	}
+	add(crowd(0, 21, 3, "TERM"))
+	add(crowd(0, 10, 2, "DIRECT"))
+	add(crowd(8, 14, 4, "INT"))
 	nrand := 6
 	if tier == "thorough" {
 		nrand = 240
@@ -425,6 +458,12 @@ func c12Gen(tier string, rng *rand.Rand) []c12Case {
 			s.SmallBuf = true
 			s.Conns = []c12ConnScn{{Pre: []int{durs[rng.Intn(len(durs))]}, Bulk: 4 << 20, ReadDelayMs: []int{300, 1200}[rng.Intn(2)]}}
 			add(s)
+			continue
+		}
+		if rng.Intn(10) == 0 {
+			c := crowd([]int{0, 0, 8, 16}[rng.Intn(4)], 4+rng.Intn(21), 1+rng.Intn(4), s.Signal)
+			c.Late = s.Late
+			add(c)
 			continue
 		}
 		if s.Pool > 0 && rng.Intn(8) == 0 {
